@@ -117,7 +117,7 @@ func (g *Gen) cexVars() (vars []cexVar, arrays []string, bounds string, ok bool)
 				for i := 0; i < cexMaxLen; i++ {
 					terms = append(terms, fmt.Sprintf("(select %s (+ (s-off %s) %d))", arr, n, i))
 				}
-				bnd = append(bnd, fmt.Sprintf("(assert (<= (s-len %s) %d))", n, cexMaxLen))
+				bnd = append(bnd, fmt.Sprintf("(assert (and (<= (s-len %s) %d) (= (s-off %s) 0)))", n, cexMaxLen, n))
 				vars = append(vars, cexVar{p.Name(), p.Type(), terms, func(vals []*sx) (string, bool) {
 					b, ok := bytesOf(vals)
 					return strconv.Quote(string(b)), ok
@@ -144,7 +144,7 @@ func (g *Gen) cexVars() (vars []cexVar, arrays []string, bounds string, ok bool)
 				for i := 0; i < cexMaxLen; i++ {
 					terms = append(terms, fmt.Sprintf("(select %s (+ (sl-off %s) %d))", arr, n, i))
 				}
-				bnd = append(bnd, fmt.Sprintf("(assert (<= (sl-len %s) %d))", n, cexMaxLen))
+				bnd = append(bnd, fmt.Sprintf("(assert (and (<= (sl-len %s) %d) (= (sl-off %s) 0)))", n, cexMaxLen, n))
 				vars = append(vars, cexVar{p.Name(), p.Type(), terms, func(vals []*sx) (string, bool) {
 					ref, _ := vals[1].intVal()
 					b, ok := bytesOf(append([]*sx{vals[0]}, vals[2:]...))
@@ -194,7 +194,7 @@ func (o *Obl) findCex(cfg *solveCfg, block []string) *Cex {
 		terms = append(terms, v.terms...)
 	}
 	post := "(get-value (" + strings.Join(terms, " ") + "))\n"
-	q := o.queryWith(arrays, bounds+strings.Join(block, "\n")+"\n", post)
+	q := boundQuery(o.queryWith(arrays, bounds+strings.Join(block, "\n")+"\n", post))
 	file := filepath.Join(cfg.dir, san(o.Name)+".cex.smt2")
 	if os.WriteFile(file, []byte(q), 0o644) != nil {
 		return nil
@@ -208,7 +208,7 @@ func (o *Obl) findCex(cfg *solveCfg, block []string) *Cex {
 		cmd.Stderr = &out
 		_ = cmd.Run()
 		cancel()
-		s := out.String()
+		s := dropWarnings(out.String())
 		first, rest, _ := strings.Cut(strings.TrimSpace(s), "\n")
 		if first != "sat" && first != "unknown" {
 			continue
@@ -359,4 +359,100 @@ func replay(repo, oracleRoot string, fn *ssa.Function, pkgDir string, cex *Cex, 
 		rr.What = "no executable oracle for this postcondition"
 	}
 	return rr
+}
+
+func dropWarnings(s string) string {
+	var keep []string
+	for _, l := range strings.Split(s, "\n") {
+		if strings.HasPrefix(l, "WARNING:") {
+			continue
+		}
+		keep = append(keep, l)
+	}
+	return strings.Join(keep, "\n")
+}
+
+// ---- bounded quantifier expansion for counterexample search ----
+// In counterexample mode inputs are bounded (offset 0, length <= cexMaxLen), so
+// single-variable integer quantifiers are expanded over 0..cexMaxLen+1. This only
+// guides the search for a candidate input: every candidate is replayed on the real code.
+
+func (x *sx) String() string {
+	if x.list == nil {
+		return x.atom
+	}
+	parts := make([]string, len(x.list))
+	for i, c := range x.list {
+		parts[i] = c.String()
+	}
+	return "(" + strings.Join(parts, " ") + ")"
+}
+
+func substSx(x *sx, name, val string) *sx {
+	if x.list == nil {
+		if x.atom == name {
+			return &sx{atom: val}
+		}
+		return x
+	}
+	// do not descend into binders that rebind the name
+	if len(x.list) == 3 && x.list[0].list == nil && (x.list[0].atom == "forall" || x.list[0].atom == "exists") && x.list[1].list != nil {
+		for _, b := range x.list[1].list {
+			if len(b.list) == 2 && b.list[0].atom == name {
+				return x
+			}
+		}
+	}
+	out := &sx{list: make([]*sx, len(x.list))}
+	for i, c := range x.list {
+		out.list[i] = substSx(c, name, val)
+	}
+	return out
+}
+
+func expandQuant(x *sx) *sx {
+	if x.list == nil {
+		return x
+	}
+	out := &sx{list: make([]*sx, len(x.list))}
+	for i, c := range x.list {
+		out.list[i] = expandQuant(c)
+	}
+	l := out.list
+	if len(l) == 3 && l[0].list == nil && (l[0].atom == "forall" || l[0].atom == "exists") && l[1].list != nil && len(l[1].list) == 1 {
+		b := l[1].list[0]
+		if len(b.list) == 2 && b.list[1].list == nil && b.list[1].atom == "Int" {
+			body := l[2]
+			if body.list != nil && len(body.list) >= 2 && body.list[0].atom == "!" {
+				body = body.list[1]
+			}
+			op := "and"
+			if l[0].atom == "exists" {
+				op = "or"
+			}
+			res := &sx{list: []*sx{{atom: op}}}
+			for k := 0; k <= cexMaxLen+1; k++ {
+				res.list = append(res.list, substSx(body, b.list[0].atom, fmt.Sprint(k)))
+			}
+			return res
+		}
+	}
+	return out
+}
+
+func boundQuery(q string) string {
+	var lines []string
+	for _, l := range strings.Split(q, "\n") {
+		if i := strings.Index(l, ";"); i >= 0 {
+			l = l[:i]
+		}
+		lines = append(lines, l)
+	}
+	top := parseSx(strings.Join(lines, "\n"))
+	var b strings.Builder
+	for _, t := range top {
+		b.WriteString(expandQuant(t).String())
+		b.WriteByte('\n')
+	}
+	return b.String()
 }
